@@ -83,6 +83,8 @@ pub struct Faults {
     /// only operations of these kinds count as failable (empty = all but Exists)
     pub kinds: Vec<OpKind>,
     pub fired: usize,
+    /// fail, once, the next operation of this kind on a path with this suffix
+    pub once: Option<(OpKind, String)>,
 }
 
 pub struct Inner {
@@ -99,6 +101,9 @@ pub struct Inner {
 pub struct VerifDirectory {
     pub inner: Arc<Mutex<Inner>>,
     pub hook: Arc<Mutex<Option<Hook>>>,
+    /// called AFTER a delete took effect (and after the operation lock was released): lets a schedule pause a thread
+    /// right after it released a lock file
+    pub post_hook: Arc<Mutex<Option<Hook>>>,
     /// held from logging an operation until its effect is applied: log order = effect order
     pub op_lock: Arc<Mutex<()>>,
 }
@@ -121,6 +126,7 @@ impl VerifDirectory {
                 short_writes: None, record_data: true, watch: WatchCallbackList::default(),
             })),
             hook: Arc::new(Mutex::new(None)),
+            post_hook: Arc::new(Mutex::new(None)),
             op_lock: Arc::new(Mutex::new(())),
         }
     }
@@ -145,7 +151,14 @@ impl VerifDirectory {
     }
     pub fn set_fault(&self, at: Option<usize>, permanent: bool, kinds: Vec<OpKind>) {
         let mut g = self.inner.lock().unwrap();
-        g.faults = Faults { fail_at: at, permanent, kinds, fired: 0 };
+        g.faults = Faults { fail_at: at, permanent, kinds, fired: 0, once: None };
+    }
+    /// Fail, once, the next operation of kind `kind` whose path ends with `suffix`.
+    pub fn set_fault_once(&self, kind: OpKind, suffix: &str) {
+        self.inner.lock().unwrap().faults.once = Some((kind, suffix.to_string()));
+    }
+    pub fn set_post_hook(&self, h: Option<Hook>) {
+        *self.post_hook.lock().unwrap() = h;
     }
     pub fn faults_fired(&self) -> usize {
         self.inner.lock().unwrap().faults.fired
@@ -201,11 +214,17 @@ impl VerifDirectory {
         let tid_key = std::thread::current().id();
         let next = g.tids.len();
         let tid = *g.tids.entry(tid_key).or_insert(next);
-        let failable = kind != OpKind::Exists && kind != OpKind::Marker && (g.faults.kinds.is_empty() || g.faults.kinds.contains(&kind));
+        // The removal of a lock file is never failed: it happens in a Drop (nobody can be told), and a lock file that
+        // stays behind is the documented stale-lock situation (blocking acquisitions time out with LockBusy), not an
+        // I/O error of an add / commit / merge / rollback / reload.
+        let lock_release = kind == OpKind::Delete && path.starts_with(".tantivy-") && path.ends_with(".lock");
+        let failable = kind != OpKind::Exists && kind != OpKind::Marker && !lock_release && (g.faults.kinds.is_empty() || g.faults.kinds.contains(&kind));
         let fail = match g.faults.fail_at {
             Some(k) if failable => seq == k || (g.faults.permanent && seq > k),
             _ => false,
         };
+        let fail = fail || match &g.faults.once { Some((k, suf)) if *k == kind && path.ends_with(suf.as_str()) && !lock_release => true, _ => false };
+        if fail && g.faults.once.as_ref().map(|(k, suf)| *k == kind && path.ends_with(suf.as_str())).unwrap_or(false) { g.faults.once = None; }
         if fail { g.faults.fired += 1; }
         g.log.push(Event { seq, tid, thread: std::thread::current().name().unwrap_or("").to_string(), kind, path: path.to_string(), data: vec![], accepted: 0, result: if fail { "Io" } else { "Ok" } });
         (seq, fail)
@@ -291,16 +310,21 @@ impl Directory for VerifDirectory {
 
     fn delete(&self, path: &Path) -> Result<(), DeleteError> {
         let ps = p2s(path);
-        let _op = self.pre(&OpKind::Delete, &ps);
-        let (seq, fail) = self.begin(OpKind::Delete, &ps);
-        if fail {
-            return Err(DeleteError::IoError { io_error: Arc::new(io_injected()), filepath: path.to_path_buf() });
-        }
-        let mut g = self.inner.lock().unwrap();
-        match g.files.remove(&ps) {
-            Some(_) => Ok(()),
-            None => { drop(g); self.set_result(seq, "NotFound"); Err(DeleteError::FileDoesNotExist(path.to_path_buf())) }
-        }
+        let (seq, r) = {
+            let _op = self.pre(&OpKind::Delete, &ps);
+            let (seq, fail) = self.begin(OpKind::Delete, &ps);
+            if fail {
+                return Err(DeleteError::IoError { io_error: Arc::new(io_injected()), filepath: path.to_path_buf() });
+            }
+            let mut g = self.inner.lock().unwrap();
+            match g.files.remove(&ps) {
+                Some(_) => (seq, Ok(())),
+                None => { drop(g); self.set_result(seq, "NotFound"); (seq, Err(DeleteError::FileDoesNotExist(path.to_path_buf()))) }
+            }
+        };
+        let post = self.post_hook.lock().unwrap().clone();
+        if let Some(h) = post { h(self, seq, &OpKind::Delete, &ps); }
+        r
     }
 
     fn exists(&self, path: &Path) -> Result<bool, OpenReadError> {
